@@ -68,7 +68,7 @@ def judge(ctx):
             ctx.label("count-not-checked:rejections")
 
 
-CFG = G.cfg(blocks=("cross", "cross", "multi", "repeat", "merge", "nest"))
+CFG = G.cfg(round_share=3, blocks=("cross", "cross", "multi", "repeat", "merge", "nest"))
 P = D.DesignProperty(
     "C06", judge,
     rule=("case = generated design spec in the reference domain with few enough valid sequences to enumerate; RandomGen is asked for "
